@@ -1,6 +1,6 @@
 //! C15: post-filters against references written from the statement, on all small boundary vectors.
 use std::panic::{catch_unwind, AssertUnwindSafe};
-use vaporetto::{CharacterBoundary as B, CharacterType, Sentence};
+use vaporetto::{CharacterBoundary as B, CharacterType};
 use vaporetto_rules::{
     sentence_filters::{ConcatGraphemeClustersFilter, KyteaWsConstFilter, SplitLinebreaksFilter},
     SentenceFilter,
